@@ -361,7 +361,8 @@ def main():
         failures.extend(fp["failures"])
         disagreements.extend(fp["disagreements"])
         extra_runs.append({"features": "fixed_point", "tier": fp_tier, "ops": fp["n_ops"], "compared": fp["n_compared"],
-                           "oracle_failures": len(fp["failures"]), "disagreements": len(fp["disagreements"])})
+                           "oracle_failures": len(fp["failures"]), "disagreements": len(fp["disagreements"]),
+                           "input_distribution": (fp.get("dist") or {}).get("counters", {})})
     # a broken proof obligation or correspondence with no failing input yet: widen the search for one
     if tier == "quick" and not replay and (broken_theorems or disagreements) and not failures:
         say("tie broken, no failing input in the quick scope: searching the thorough scope (10 min limit)")
